@@ -40,6 +40,9 @@ type PackWriter struct {
 	// promisor, when non-nil, writes a .promisor sidecar next to the pack
 	// carrying these contents. A nil value leaves the pack unmarked.
 	promisor *string
+	// published, when non-nil, is called once the pack is in its final
+	// location.
+	published func()
 }
 
 func newPackWrite(fs billy.Filesystem, format formatcfg.ObjectFormat, writeRev bool) (*PackWriter, error) {
@@ -247,6 +250,9 @@ func (w *PackWriter) save() error {
 		return w.clean()
 	}
 
+	if w.published != nil {
+		w.published()
+	}
 	return nil
 }
 
@@ -375,6 +381,9 @@ type ObjectWriter struct {
 	objfile.Writer
 	fs billy.Filesystem
 	f  billy.File
+	// published, when non-nil, is called once the object is in its final
+	// location.
+	published func()
 }
 
 func newObjectWriter(fs billy.Filesystem, objectFormat formatcfg.ObjectFormat) (*ObjectWriter, error) {
@@ -420,5 +429,8 @@ func (w *ObjectWriter) save() error {
 	}
 	fixPermissions(w.fs, file)
 
+	if w.published != nil {
+		w.published()
+	}
 	return nil
 }
